@@ -5,6 +5,11 @@ import json, os
 V = os.path.dirname(os.path.dirname(os.path.abspath(__file__)))
 TECH = "bounded symbolic execution of the real Python source (sx: AST-instrumented, z3 decides every branch and obligation); counterexamples and every path witness are replayed on the uninstrumented code"
 
+ADDED = (" Instances added after the seeded rounds (DESIGN.md 5.3): preceding workloads (failed parses, other classes, 300-400 earlier calls "
+         "through the same function), long concrete context around the symbolic part (kilobyte-sized files with the symbolic character at "
+         "power-of-two offsets, lists of 15-40 members, texts of the full declared length) and rarely used parameters; every run has an "
+         "overall wall budget and reports what it skipped; the exact bounds of a run are in its evidence file.")
+
 # id -> (claimed?, level text, level note, design ref, technique suffix)
 CHECKS = {
     "C20": (True,
@@ -187,7 +192,7 @@ def main():
                 evidence_file=f"evidence/{pid}.json",
                 replay_cmd_template="./vcheck replay {path}",
                 engine="sx",
-                level_claimed=dict(category="model_checking", text=c[1], design_ref=c[3]),
+                level_claimed=dict(category="model_checking", text=c[1] + ADDED, design_ref=c[3]),
                 level_note=c[2],
                 technique=TECH + (("; " + c[4]) if c[4] else ""),
             ))
@@ -205,7 +210,9 @@ def main():
         ],
         checks=checks,
         not_applicable=na,
-        notes="Exit codes: 0 held / only listed known findings; 1 VIOLATION (replayed on the real code); 3 harness error (never a verdict). "
+        notes="Exit codes: 0 held / only listed known findings; 1 VIOLATION (replayed on the real code, in a fresh interpreter if state left "
+              "by the symbolic run masks it); 3 harness error (never a verdict). VERIF_RUN_WALL=<seconds> overrides the overall wall budget of a run "
+              "(quick 780 s, thorough 1800 s; C09 thorough 2400 s). "
               "known_findings.json is read-only at run time.",
     )
     with open(os.path.join(V, "MANIFEST.json"), "w") as f:
